@@ -441,16 +441,20 @@ class FunctionReference:
         """
         assert isinstance(qualified_name, str), "Qualified name must be a str"
 
-        # Parse information from the string
-        match = re.match(
-            r"((?P<cluster>.*)::)?(?P<module>.*):(?P<function>[^#]*)(#(?P<version>.*))?",
-            qualified_name,
+        # Parse information from the string. Module and function names contain neither ":"
+        # nor "#", but a version (and a cluster name) may, so the name is first read without
+        # a cluster and only if that fails with the shortest possible cluster prefix.
+        tail = r"(?P<module>[^:#]*):(?P<function>[^:#]*)(#(?P<version>.*))?"
+        match = re.fullmatch(tail, qualified_name, re.DOTALL) or re.fullmatch(
+            r"(?P<cluster>.*?)::" + tail, qualified_name, re.DOTALL
         )
         if not match:
             raise ValueError(
                 "fn_or_name '{}' is not a valid qualified name".format(qualified_name)
             )
-        return match.groupdict()
+        result = {"cluster": None}
+        result.update(match.groupdict())
+        return result
 
     @staticmethod
     def from_qualified_name(
